@@ -83,6 +83,11 @@ var senTexts = []string{
 	`{text: "` + strings.Repeat("abc def ", 50) + `"}`,
 }
 
+// texts on which a call fails, each in another state of the parser: whatever a failed call leaves
+// in a pooled parser is handed to the next caller with it
+var badTexts = []string{`[1,2`, `{"a":`, `["abc\\`, `[1.5e`, `[tru`, `{"a" 1}`, `[12345678901234567890123 x]`, `{"a":{"b":[1,{"c":"\\u12`, `[1,2]]`, `{"k":"v"}}`}
+var badSenTexts = []string{`["abc" + 1]`, `{a: "x" + }`, `["abc" +`, `[1 2`, `{a:`, `"abc`, `[abc"d`, `{a:1 b}`, `[1 2]]`, `[/* open`, `{a:[1 {b:"x\\u00`}
+
 var exprTexts = []string{
 	"$.a.b", "$.a.b[1]", "$..x", "$.list[*].v", "$.list[?(@.v > 1)].k", "$.list[1:3]", "$['a','c']", "$.list[?(@.k =~ /k.*/)].v",
 	"$.list[?(@.v == $.a.b[0])]", "$[*]", "$..a", "$.list[-1].k", "@.a", "$.list[?(@.w[0] == 1 && @.v >= 7)].k", "$.a..[1]",
@@ -186,7 +191,7 @@ type leaf struct {
 var shelfData = alt.Decompose(&shelf{Name: "s", Items: map[string]*leaf{"a": {N: 1, Tag: "x"}, "b": {N: 2}}, Byval: map[string]leaf{"c": {N: 3}}}, &ojg.Options{})
 
 var opKinds = []string{
-	"oj.parse", "oj.parsestring", "oj.validate", "oj.tokenize", "sen.parse", "oj.unmarshal",
+	"oj.parse", "oj.parsestring", "oj.validate", "oj.tokenize", "sen.parse", "oj.unmarshal", "oj.parse.bad", "sen.parse.bad",
 	"oj.load", "oj.mustload", "oj.mustparse", "oj.parse.callback", "sen.parsereader", "sen.mustparsereader", "sen.mustparse", "sen.parse.callback",
 	"oj.json", "oj.marshal", "oj.write", "sen.string", "sen.bytes", "pretty.json", "pretty.sen",
 	"struct.oj.json", "struct.oj.marshal", "struct.sen.string", "struct.pretty", "struct.decompose", "named.oj.json", "named.decompose",
@@ -217,12 +222,46 @@ func shared(k string) string {
 		return "recomposer"
 	case k == "oj.json" || k == "oj.marshal" || k == "oj.write" || k == "sen.string" || k == "sen.bytes" || k == "pretty.json" || k == "pretty.sen":
 		return "pooled-writer"
-	case k == "oj.parse" || k == "oj.parsestring" || k == "oj.validate" || k == "oj.tokenize" || k == "sen.parse",
+	case k == "oj.parse" || k == "oj.parsestring" || k == "oj.validate" || k == "oj.tokenize" || k == "sen.parse" || k == "oj.parse.bad" || k == "sen.parse.bad",
 		k == "oj.load", k == "oj.mustload", k == "oj.mustparse", k == "oj.parse.callback",
 		k == "sen.parsereader", k == "sen.mustparsereader", k == "sen.mustparse", k == "sen.parse.callback":
 		return "pooled-parser"
 	}
 	return "other"
+}
+
+// alone gives, for the plain parse calls, what the call returns when nothing else has run: the
+// package level functions take a parser from a pool, a parser nobody has used gives the same.
+func (e *env) alone(op Op) (string, bool) {
+	switch op.K {
+	case "sen.parse":
+		v, err := (&sen.Parser{}).Parse([]byte(senTexts[op.D%len(senTexts)]), parseArgs(op)...)
+		return fmt.Sprintf("%s %v", canon.String(v, canon.Typed), err), true
+	case "oj.parse":
+		v, err := (&oj.Parser{}).Parse([]byte(texts[op.D%len(texts)]), parseArgs(op)...)
+		return fmt.Sprintf("%s %v", canon.String(v, canon.Typed), err), true
+	case "sen.parse.bad":
+		t := badSenTexts[op.D%len(badSenTexts)]
+		var v any
+		var err error
+		if op.X%3 == 0 {
+			v, err = (&sen.Parser{}).ParseReader(&yieldReader{data: []byte(t), size: 2 + op.X})
+		} else {
+			v, err = (&sen.Parser{}).Parse([]byte(t))
+		}
+		return fmt.Sprintf("%s %v", canon.String(v, canon.Typed), err), true
+	case "oj.parse.bad":
+		t := badTexts[op.D%len(badTexts)]
+		var v any
+		var err error
+		if op.X%3 == 0 {
+			v, err = (&oj.Parser{}).ParseReader(&yieldReader{data: []byte(t), size: 2 + op.X})
+		} else {
+			v, err = (&oj.Parser{}).Parse([]byte(t))
+		}
+		return fmt.Sprintf("%s %v", canon.String(v, canon.Typed), err), true
+	}
+	return "", false
 }
 
 // do runs one call on private data and returns its result and, for calls that hand out
@@ -316,6 +355,28 @@ func (e *env) call(op Op) (res string, buf []byte) {
 		return fmt.Sprintf("%s %v", sb.String(), err), nil
 	case "sen.parse":
 		v, err := sen.Parse([]byte(senTexts[op.D%len(senTexts)]), parseArgs(op)...)
+		return fmt.Sprintf("%s %v", canon.String(v, canon.Typed), err), nil
+	case "sen.parse.bad":
+		// a call that fails (the reader forms in turn), then nothing: the next caller of a pooled
+		// parser gets whatever this one left in it
+		t := badSenTexts[op.D%len(badSenTexts)]
+		var v any
+		var err error
+		if op.X%3 == 0 {
+			v, err = sen.ParseReader(&yieldReader{data: []byte(t), size: 2 + op.X})
+		} else {
+			v, err = sen.Parse([]byte(t))
+		}
+		return fmt.Sprintf("%s %v", canon.String(v, canon.Typed), err), nil
+	case "oj.parse.bad":
+		t := badTexts[op.D%len(badTexts)]
+		var v any
+		var err error
+		if op.X%3 == 0 {
+			v, err = oj.Load(&yieldReader{data: []byte(t), size: 2 + op.X})
+		} else {
+			v, err = oj.Parse([]byte(t))
+		}
 		return fmt.Sprintf("%s %v", canon.String(v, canon.Typed), err), nil
 	case "oj.unmarshal":
 		t := e.recs[op.D%len(e.recs)]
@@ -570,6 +631,14 @@ func Run(cs Case, c *vrt.Ctx) {
 		want[i] = make([]string, len(seq))
 		for j, op := range seq {
 			want[i][j], _ = e.do(op)
+			if op.K == "sen.parse" || op.K == "oj.parse" || op.K == "sen.parse.bad" || op.K == "oj.parse.bad" {
+				// "what it returns when run alone": for the plain parse calls that is what a parser
+				// nobody has used returns (the sequential run takes its parsers from the pools too)
+				res, _ := e.call(op)
+				if a, ok := e.alone(op); ok && a != res {
+					c.Fail("result-differs-from-alone", op.K, fmt.Sprintf("goroutine %d call %d in the sequential run: alone %s, in sequence %s", i, j, clip(a), clip(res)))
+				}
+			}
 		}
 	}
 	for rep := 0; rep < repeats; rep++ {
